@@ -22,6 +22,7 @@
  */
 #include "MHD_config.h"
 #include "internal.h"
+#include "connection.h"
 #include <microhttpd.h>
 #include <sys/types.h>
 #include <sys/socket.h>
@@ -120,10 +121,12 @@ static int fd_conn (int fd)
   for (c = 0; c < MAXC; c++) if (conns[c].used && conns[c].sfd == fd) return c;
   return -1;
 }
+static int io_calls[MAXC], cb_calls[MAXC];   /* per connection: socket calls, application callbacks */
 static void io_log (int fd, const char *what, ssize_t n)
 {
   int c = fd_conn (fd);
   if (c < 0) return;
+  io_calls[c]++;
   out ("io c=%d %s n=%zd", c, what, n);
 }
 #define NEXT(name, type) static type real; if (!real) real = (type) dlsym (RTLD_NEXT, name)
@@ -216,6 +219,7 @@ static ssize_t content_cb (void *cls, uint64_t pos, char *buf, size_t max)
   struct cbctx *x = (struct cbctx *) cls;
   struct resp *rs = &resps[x->rid];
   struct beh *b = &conns[x->c].beh[x->r];
+  cb_calls[x->c]++;
   size_t n, i; int j = x->calls++, k, susp = -1;
   for (k = 0; k < b->nrs; k++) if (b->rs[k].idx == j) susp = k;
   if (susp >= 0 && !b->rd)
@@ -332,6 +336,7 @@ static enum MHD_Result handler (void *cls, struct MHD_Connection *mc, const char
   else phase = "final";
   rq->refirst = 0;
   rq->ncalls++;
+  cb_calls[c]++;
   b = (rq->r < MAXR && conns[c].beh[rq->r].used) ? &conns[c].beh[rq->r] : &defbeh;
 
   LOCK ();
@@ -517,7 +522,7 @@ static void reset_all (void)
   for (c = 0; c < MAXC; c++) { conns[c].sfd = -1; conns[c].cfd = -1; conns[c].resume_in = -1; }
   memset (resps, 0, sizeof(resps));
   memset (&cfg, 0, sizeof(cfg)); strcpy (cfg.mode, "select"); cfg.suspend = 1;
-  for (c = 0; c < MAXC; c++) want_resume[c] = 0;
+  for (c = 0; c < MAXC; c++) { want_resume[c] = 0; io_calls[c] = 0; cb_calls[c] = 0; }
   stopping = 0;
   vclock_ms = 1000000;
 }
@@ -649,6 +654,30 @@ int main (void)
     if (!strcmp (op, "tick") && l.n >= 2 && lp_u64 (l.w[1], &a)) { vclock_ms += a; out ("ok"); continue; }
     if (!strcmp (op, "resume") && l.n >= 2 && lp_u64 (l.w[1], &a) && a < MAXC && conns[a].mc)
     { conns[a].resume_in = -1; LOCK (); printf ("resume c=%d op\n", (int) a); conns[a].is_susp = 0; MHD_resume_connection (conns[a].mc); UNLOCK (); continue; }
+    if (!strcmp (op, "wb") && l.n >= 2 && lp_u64 (l.w[1], &a) && a < MAXC && conns[a].mc && !threaded ())
+    { /* white-box view of the flags the model carries */
+      struct MHD_Connection *mc = conns[a].mc;
+      out ("wb c=%d suspended=%d resuming=%d dresuming=%d eli=%d ep=%d", (int) a, (int) mc->suspended, (int) mc->resuming,
+           (int) d->resuming, (int) mc->event_loop_info,
+#ifdef EPOLL_SUPPORT
+           (int) mc->epoll_state
+#else
+           0
+#endif
+           );
+      continue; }
+    if (!strcmp (op, "probe") && l.n >= 3 && lp_u64 (l.w[2], &a) && a < MAXC && conns[a].mc && !threaded ())
+    { /* call one entry point of the connection state machine directly, as an event loop would,
+         and report whether it touched the socket, the application or the event-loop info */
+      struct MHD_Connection *mc = conns[a].mc;
+      int io0 = io_calls[a], cb0 = cb_calls[a], eli0 = (int) mc->event_loop_info, st0 = (int) mc->state;
+      if (!strcmp (l.w[1], "read")) MHD_connection_handle_read (mc, false);
+      else if (!strcmp (l.w[1], "write")) MHD_connection_handle_write (mc);
+      else if (!strcmp (l.w[1], "idle")) (void) MHD_connection_handle_idle (mc);
+      else { out ("bad-op"); continue; }
+      out ("probe c=%d fn=%s suspended=%d io=%d cb=%d eli=%d->%d state=%d->%d", (int) a, l.w[1], (int) mc->suspended,
+           io_calls[a] - io0, cb_calls[a] - cb0, eli0, (int) mc->event_loop_info, st0, (int) mc->state);
+      continue; }
     if (!strcmp (op, "stop")) { stop_daemon (); out ("stopped"); continue; }
     out ("bad-op");
   }
